@@ -156,6 +156,43 @@ def run_adaptive(seed, mru, init, nbytes, tick_choices=(1, 5, 20, 80), nbundles=
     return world.finish({'kind': 'pair', 'flush': False, 'quiesced': True})
 
 
+def run_keepalive_mid_drain(seed, ka, nbytes, tx_steps, quota, who='A'):
+    ''' A timer fires while a message larger than one transmit chunk is only partly handed to the socket: the
+    sender has run ``tx_steps`` transmit callbacks (the socket taking ``quota`` octets per call) when its keepalive
+    timer comes due.  Whatever the timer sends must follow the message that is under way. '''
+    other = 'P' if who == 'A' else 'A'
+    world = World(EndCfg('dtn://a/', keepalive=ka, seg_mru=10 ** 7, seg_init=10 ** 6),
+                  EndCfg('dtn://p/', keepalive=ka, seg_mru=10 ** 7, seg_init=10 ** 6))
+    world.start('P')
+    world.start('A')
+    world.run_fair(timers=False)
+    world.user_send(who, payload(who, 1, nbytes, seed))
+    world.step(who, 'pq')
+    for _ in range(tx_steps):
+        world.step(who, 'tx', quota)
+    world.step(who, 'ka')
+    if seed % 2:
+        world.step(other, 'ka')
+    world.run_fair(timers=False, pop=True, max_steps=20000)
+    return world.finish({'kind': 'pair', 'flush': False, 'quiesced': True})
+
+
+def keepalive_mid_drain_executions(tier, seed):
+    rnd = random.Random(seed * 19 + 6)
+    traces, metas = [], []
+    cases = [(1, 40000, 1, None), (2, 40000, 2, None), (1, 25000, 1, 3000), (5, 10241, 1, None), (1, 10240, 1, None),
+             (30, 70000, 3, 9000), (1, 40000, 0, None), (2, 30000, 1, 1)]
+    for _ in range(4 if tier != 'thorough' else 60):
+        cases.append((rnd.choice([1, 2, 7]), rnd.choice([10239, 10300, 20480, 20481, 50000]), rnd.choice([1, 1, 2, 3, 4]),
+                      rnd.choice([None, None, 100, 5000, 10240])))
+    for (i, (ka, nbytes, txs, quota)) in enumerate(cases):
+        who = 'AP'[i % 2]
+        traces.append(run_keepalive_mid_drain(seed + i, ka, nbytes, txs, quota, who=who))
+        metas.append({'kind': 'keepalive-mid-drain', 'source': 'keepalive-mid-drain', 'keepalive': ka, 'bytes': nbytes,
+                      'tx_callbacks_before_timer': txs, 'socket_takes': quota or 'all', 'sender': who})
+    return traces, metas
+
+
 def executions(tier, seed):
     rnd = random.Random(seed * 13 + 1)
     traces, metas = [], []
@@ -209,6 +246,9 @@ def executions(tier, seed):
     (str_, sme) = slow_negotiation_executions(tier, seed)
     traces += str_
     metas += sme
+    (ktr, kme) = keepalive_mid_drain_executions(tier, seed)
+    traces += ktr
+    metas += kme
     nad = 12 if tier == 'quick' else 200
     for i in range(nad):
         mru = rnd.choice([1, 500, 9000, 10240, 20000, 10 ** 6])
